@@ -37,8 +37,8 @@ def scan_assumptions(text):
         if s.startswith('//'):
             continue
         if 'assume_specification' in s:
-            m = re.search(r'\[\s*(.*?)\s*\]', s)
-            out.append('assume_specification ' + (m.group(1) if m else s))
+            m = re.search(r'assume_specification[^\[]*\[\s*(.*)\s*\]\s*\(', s)
+            out.append('assume_specification ' + (m.group(1).strip() if m else s))
         elif 'external_body' in s:
             # name of the next fn/struct
             for j in range(i, min(i + 6, len(lines))):
